@@ -27,14 +27,17 @@ Total(ev) == Chk("total", TRUE, ev.out.st \in {"ok", "err"})
 
 ALLSEL == [t |-> "ALL"]
 Empty == [case |-> 0, creds |-> {}, ledger |-> {}, jwks |-> {}, honest |-> {}, holders |-> {}, issuers |-> {}, vpairs |-> {}, ppairs |-> {}, mpairs |-> {}]
-Init == l = 1 /\ st = Empty /\ TLCSet(1, <<>>) /\ TLCSet(2, [c \in {"total"} |-> 0]) /\ TLCSet(3, [n0 |-> 0, mo0 |-> 0, n1 |-> 0, mo1 |-> 0, dl1 |-> 0, hn0 |-> 0, hmo0 |-> 0, hn1 |-> 0, hmo1 |-> 0, hdl1 |-> 0])
+Init == l = 1 /\ st = Empty /\ TLCSet(1, <<>>) /\ TLCSet(2, [c \in {"total"} |-> 0]) /\ TLCSet(3, [n0 |-> 0, mo0 |-> 0, n1 |-> 0, mo1 |-> 0, nd1 |-> 0, dl1 |-> 0, hn0 |-> 0, hmo0 |-> 0, hn1 |-> 0, hmo1 |-> 0, hnd1 |-> 0, hdl1 |-> 0])
 
 Strat(s) == [kind |-> s.kind, paths |-> {s.paths[i].tok : i \in {j \in DOMAIN s.paths : ~s.paths[j].bad}}]
 HasBadPath(s) == \E i \in DOMAIN s.paths : s.paths[i].bad
 B64Chars == {"A","B","C","D","E","F","G","H","I","J","K","L","M","N","O","P","Q","R","S","T","U","V","W","X","Y","Z",
              "a","b","c","d","e","f","g","h","i","j","k","l","m","n","o","p","q","r","s","t","u","v","w","x","y","z",
              "0","1","2","3","4","5","6","7","8","9","-","_"}
-DigestShaped(g) == Len(g) = 43 /\ \A i \in 1..43 : SubSeq(g, i, i) \in B64Chars
+\* exactly the form of a real digest: the canonical base64url text of 32 bytes - 43 symbols, the last of which carries
+\* only 4 bits, so it is one of 16 symbols (43 arbitrary symbols are told apart by a strict decoder: seeded W7_2m1)
+B64Last == {"A", "E", "I", "M", "Q", "U", "Y", "c", "g", "k", "o", "s", "w", "0", "4", "8"}
+DigestShaped(g) == Len(g) = 43 /\ (\A i \in 1..43 : SubSeq(g, i, i) \in B64Chars) /\ SubSeq(g, 43, 43) \in B64Last
 DiscIds(m) == SeqToSet(Ids(m.discs))
 CredOfT(jwtid) == {c \in st.creds : c.jwtid = jwtid}
 HolderOf(inst) == {h \in st.holders : h.inst = inst}
@@ -64,11 +67,14 @@ Leak(u, v, D, inside) ==
          inDoc == LET F[i \in 0..Len(u.k)] == IF i = 0 THEN <<>> ELSE IF u.k[i] \in hidden THEN Append(F[i-1], u.k[i]) ELSE F[i-1] IN F[Len(u.k)]
          one == Cardinality(ri) >= 2
          mo == IF one /\ inList = inDoc THEN 1 ELSE 0
-         nd == IF one /\ Cardinality(ri) < Len(sdl) THEN 1 ELSE 0
-         dl == IF one /\ Cardinality(ri) < Len(sdl) /\ (\A i \in ri, j \in DOMAIN sdl \ ri : i < j) THEN 1 ELSE 0
-         here == IF ~one THEN Zero3
-                 ELSE IF inside THEN [Zero3 EXCEPT !.hn = 1, !.hmo = mo, !.hnd = nd, !.hdl = dl]
-                 ELSE [Zero3 EXCEPT !.n = 1, !.mo = mo, !.nd = nd, !.dl = dl]
+         \* lists with at least one real digest AND at least one decoy; among them, those whose decoys all come last
+         \* (one real digest followed by its decoys gives the real one away just as well: seeded W7_2m2)
+         mixed == Cardinality(ri) >= 1 /\ Cardinality(ri) < Len(sdl)
+         nd == IF mixed THEN 1 ELSE 0
+         dl == IF mixed /\ (\A i \in ri, j \in DOMAIN sdl \ ri : i < j) THEN 1 ELSE 0
+         nn == IF one THEN 1 ELSE 0
+         here == IF inside THEN [Zero3 EXCEPT !.hn = nn, !.hmo = mo, !.hnd = nd, !.hdl = dl]
+                 ELSE [Zero3 EXCEPT !.n = nn, !.mo = mo, !.nd = nd, !.dl = dl]
          digOf(k) == sdl[CHOOSE i \in ri : nameAt(i) = k].v
          ks == SetToSeq({k \in DOMAIN u.f : k \in DOMAIN v.f \/ k \in hidden})
      IN Add3(here, Sum3([i \in DOMAIN ks |-> LET k == ks[i] IN
@@ -127,7 +133,7 @@ OnIssue(ev) ==
           THEN LET k == Leak(U, UserPart(pl, ev.hkjwk # NONE, U), D, FALSE)  a == TLCGet(3) IN
                \* populations: issuances without decoys (member order) and with decoys (member order, decoys last),
                \* each for lists in the clear payload and (h..) for lists inside disclosed values
-               TLCSet(3, IF ev.decoy THEN [a EXCEPT !.n1 = @ + k.n, !.mo1 = @ + k.mo, !.dl1 = @ + k.dl, !.hn1 = @ + k.hn, !.hmo1 = @ + k.hmo, !.hdl1 = @ + k.hdl]
+               TLCSet(3, IF ev.decoy THEN [a EXCEPT !.n1 = @ + k.n, !.mo1 = @ + k.mo, !.nd1 = @ + k.nd, !.dl1 = @ + k.dl, !.hn1 = @ + k.hn, !.hmo1 = @ + k.hmo, !.hnd1 = @ + k.hnd, !.hdl1 = @ + k.hdl]
                                      ELSE [a EXCEPT !.n0 = @ + k.n, !.mo0 = @ + k.mo, !.hn0 = @ + k.hn, !.hmo0 = @ + k.hmo])
           ELSE TRUE
        /\ st' = [st EXCEPT
